@@ -394,8 +394,11 @@ pub fn f_consumers(seed: u64, cancel: bool) -> Plan {
     let topic = topic_name("proj-c", 0);
     let sub = sub_name("proj-c", 0, 0);
     let dl = *rng.pick(&[10i32, 10, 12]);
+    // (one run in twelve: the subscription has a push endpoint, but no push loop is running - Pull and
+    // StreamingPull are served on it like on any other subscription)
+    let push = if rng.chance(85) { Some(PushSpec { endpoint: "http://down.test/hook".into(), attrs: Default::default(), oidc: None }) } else { None };
     plan.phases.push(Phase {
-        scripts: vec![vec![Step::new(Op::CreateTopic { topic: topic.clone() }), Step::new(Op::CreateSub { sub: sub.clone(), topic: topic.clone(), ack_deadline: dl, push: None })]],
+        scripts: vec![vec![Step::new(Op::CreateTopic { topic: topic.clone() }), Step::new(Op::CreateSub { sub: sub.clone(), topic: topic.clone(), ack_deadline: dl, push })]],
         advance_us: rng.below(200_000),
         audit: false,
     });
@@ -1944,6 +1947,34 @@ pub fn f_timer(seed: u64) -> Plan {
     let topic = topic_name("proj-i", 0);
     let sub = sub_name("proj-i", 0, 0);
     let dl = *rng.pick(&[10i32, 10, 20]);
+    if rng.chance(200) {
+        // a trickle: many deliveries handed out a few tens of ms apart over seconds - a long chain of
+        // deadlines each close to the next - then a parked consumer: the first ones come back when
+        // *their* deadline is reached, not when the chain ends
+        let n = rng.range(30, 70);
+        let gap = rng.range(30, 90) * 1_000;
+        plan.phases.push(Phase {
+            scripts: vec![vec![
+                Step::new(Op::CreateTopic { topic: topic.clone() }),
+                Step::new(Op::CreateSub { sub: sub.clone(), topic: topic.clone(), ack_deadline: dl, push: None }),
+                Step::new(Op::PublishMany { topic: topic.clone(), count: n as u32 }),
+            ]],
+            advance_us: rng.below(400_000),
+            audit: false,
+        });
+        let mut s = Vec::new();
+        for _ in 0..n {
+            s.push(Step::after(gap, Op::Pull { sub: sub.clone(), max: 1, immediate: true }));
+        }
+        plan.phases.push(Phase { scripts: vec![s], advance_us: 0, audit: false });
+        let elapsed = n * gap + 100_000;
+        let park = Op::PullBg { slot: 1, sub: sub.clone(), max: 1000 };
+        plan.phases.push(Phase { scripts: vec![vec![Step::new(park)]], advance_us: ((dl as u64) * 1_000_000 + 1_300_000).saturating_sub(elapsed), audit: false });
+        plan.phases.push(Phase { scripts: vec![], advance_us: 0, audit: true });
+        plan.phases.push(Phase { scripts: vec![vec![Step::new(Op::PullBg { slot: 2, sub: sub.clone(), max: 1000 })]], advance_us: 5_000_000, audit: true });
+        plan.phases.push(Phase { scripts: vec![], advance_us: 0, audit: true });
+        return plan;
+    }
     plan.phases.push(Phase {
         scripts: vec![vec![
             Step::new(Op::CreateTopic { topic: topic.clone() }),
@@ -2059,9 +2090,11 @@ pub fn f_burst_edge(seed: u64) -> Plan {
     let base = *rng.pick(&[-1_000i64, -1_000, -500, 0, -2_000]);
     for _ in 0..n {
         let offset = if rng.chance(700) { base } else { base + *rng.pick(&[-1_000i64, 1_000, 0]) };
-        let op = match rng.below(5) {
+        let op = match rng.below(6) {
             0 | 1 => Op::Ack { sub: sub.clone(), sel: Sel { mine: false, pick: Pick::None, extra: vec!["616161".into()], ..Sel::none() } },
             2 => Op::ModAck { sub: sub.clone(), sel: Sel { mine: false, pick: Pick::None, extra: vec!["616162".into()], ..Sel::none() }, secs: 10 },
+            // a request about a live delivery in the middle of the burst: it is served like any other
+            5 => Op::ModAck { sub: sub.clone(), sel: sel_any(Pick::LastN(1)), secs: *rng.pick(&[30i32, 30, 0]) },
             3 => Op::Pull { sub: sub.clone(), max: 0, immediate: true },
             _ => Op::GetSub { sub: sub.clone() },
         };
